@@ -186,11 +186,30 @@ def sany(module: Path) -> tuple[bool, str]:
     return ok, pr.stdout + pr.stderr
 
 
-def read_dump(path: str | Path):
-    """Yield the states of a `-dump` file as dicts."""
-    txt = Path(path).read_text()
-    parts = re.split(r"^State \d+:\n", txt, flags=re.M)
-    for blk in parts[1:]:
-        blk = blk.strip()
-        if blk:
-            yield tlaval.parse_state(blk)
+def read_dump(path: str | Path, must_contain: str | None = None):
+    """Yield the states of a `-dump` file as dicts (streaming).
+
+    `must_contain`: only blocks containing this text are parsed (cheap pre-filter, e.g.
+    'pc = "done"' to keep terminal states only).
+    """
+    buf: list = []
+
+    def flush():
+        if buf:
+            blk = "".join(buf).strip()
+            if blk and (must_contain is None or must_contain in blk):
+                return tlaval.parse_state(blk)
+        return None
+
+    with open(path) as fh:
+        for line in fh:
+            if line.startswith("State ") and line.rstrip().endswith(":"):
+                st = flush()
+                if st is not None:
+                    yield st
+                buf = []
+            else:
+                buf.append(line)
+    st = flush()
+    if st is not None:
+        yield st
